@@ -222,14 +222,17 @@ class AutoRestartTrick(Trick):
             process_watcher.join()
 
     def _start_process(self) -> None:
-        if self._is_trick_stopping:
-            return
+        # stop() sets _is_trick_stopping under this lock: either the child (and its watcher) is
+        # completely started before stop() goes on to stop it, or it is not started at all.
+        with self._stopping_lock:
+            if self._is_trick_stopping:
+                return
 
-        # windows doesn't have setsid
-        self.process = subprocess.Popen(self.command, preexec_fn=getattr(os, "setsid", None))
-        if self.restart_on_command_exit:
-            self.process_watcher = ProcessWatcher(self.process, self._restart_process)
-            self.process_watcher.start()
+            # windows doesn't have setsid
+            self.process = subprocess.Popen(self.command, preexec_fn=getattr(os, "setsid", None))
+            if self.restart_on_command_exit:
+                self.process_watcher = ProcessWatcher(self.process, self._restart_process)
+                self.process_watcher.start()
 
     def _stop_process(self) -> None:
         # Ensure the body of the function is not run in parallel in different threads.
